@@ -1,36 +1,36 @@
 (* Check-then-act across two critical sections: a function reads a field under a mutex, releases the mutex, takes it
    again and writes that field without having read it again -- whatever it decided on the first reading may no longer
-   hold (another goroutine ran in between).  May-analysis over the lock skeletons of Model/RaceCfg.v. *)
+   hold (another goroutine ran in between).  Analysis over the lock skeletons of Model/RaceCfg.v; its soundness for
+   every path of a function is Proofs/SplitCsSound.v.
+
+   State, per program point: the mutex classes held (required to be the same on every path reaching the point: a
+   function where that fails is reported as such), the fields read in the current critical section on every path
+   (must) and on some path (may), the fields written in it on every path, and the fields that were read -- and not
+   written: a flag the function sets itself and clears later is its own -- in an earlier critical section and not
+   read since (may). *)
 From MV Require Import Model.RaceCfg.
 Open Scope N_scope.
 
-(* abstract state: fields read in the current critical section (cur), fields read in an earlier one and not re-read since (stale),
-   number of lock classes held (depth, counted loosely: any Lock opens / any Unlock closes) *)
-Record sst := { s_cur : list N; s_wr : list N; s_stale : list N; s_held : cset }.
-Definition s0 (entry : cset) : sst := {| s_cur := []; s_wr := []; s_stale := []; s_held := entry |}.
+Record sst := { s_must : list N; s_may : list N; s_wr : list N; s_stale : list N; s_held : cset }.
+Definition s0 (entry : cset) : sst := {| s_must := []; s_may := []; s_wr := []; s_stale := []; s_held := entry |}.
 Definition nunion (a b : list N) : list N := fold_left (fun acc c => cadd c acc) b a.
+Definition is_nil {A} (l : list A) : bool := match l with [] => true | _ => false end.
 
+(* one instruction: new state, fields written on a stale reading *)
 Definition sp_instr (s : sst) (i : rinstr) : sst * list N :=
   match i with
-  | RLock c => ({| s_cur := s_cur s; s_wr := s_wr s; s_stale := s_stale s; s_held := cadd c (s_held s) |}, [])
+  | RLock c => ({| s_must := s_must s; s_may := s_may s; s_wr := s_wr s; s_stale := s_stale s; s_held := cadd c (s_held s) |}, [])
   | RUnlock c =>
     let h := cdel c (s_held s) in
-    (match h with
-     (* what this section only looked at (and did not write itself) may be out of date from now on *)
-     | [] => {| s_cur := []; s_wr := []; s_stale := nunion (s_stale s) (filter (fun f => negb (cmem f (s_wr s))) (s_cur s)); s_held := [] |}
-     | _ => {| s_cur := s_cur s; s_wr := s_wr s; s_stale := s_stale s; s_held := h |}
-     end, [])
-  | RAccess false f =>
-    (match s_held s with
-     | [] => s
-     | _ => {| s_cur := cadd f (s_cur s); s_wr := s_wr s; s_stale := cdel f (s_stale s); s_held := s_held s |}
-     end, [])
-  | RAccess true f =>
-    (match s_held s with
-     | [] => s
-     | _ => {| s_cur := cadd f (s_cur s); s_wr := cadd f (s_wr s); s_stale := cdel f (s_stale s); s_held := s_held s |}
-     end,
-     match s_held s with [] => [] | _ => if cmem f (s_stale s) && negb (cmem f (s_cur s)) then [f] else [] end)
+    (if is_nil h
+     then {| s_must := []; s_may := []; s_wr := [];
+             s_stale := nunion (s_stale s) (filter (fun f => negb (cmem f (s_wr s))) (s_may s)); s_held := [] |}
+     else {| s_must := s_must s; s_may := s_may s; s_wr := s_wr s; s_stale := s_stale s; s_held := h |}, [])
+  | RAccess w f =>
+    if is_nil (s_held s) then (s, [])
+    else ({| s_must := cadd f (s_must s); s_may := if w then s_may s else cadd f (s_may s); s_wr := if w then cadd f (s_wr s) else s_wr s;
+             s_stale := cdel f (s_stale s); s_held := s_held s |},
+          if w && cmem f (s_stale s) && negb (cmem f (s_must s)) then [f] else [])
   | _ => (s, [])
   end.
 Fixpoint sp_body (s : sst) (b : list rinstr) : sst * list N :=
@@ -39,10 +39,16 @@ Fixpoint sp_body (s : sst) (b : list rinstr) : sst * list N :=
   | i :: r => let '(s1, v1) := sp_instr s i in let '(s2, v2) := sp_body s1 r in (s2, v1 ++ v2)
   end.
 
+(* a covers b: b's facts are at least as strong *)
+Definition sst_le (b a : sst) : bool :=
+  csub (s_must a) (s_must b) && csub (s_may b) (s_may a) && csub (s_wr a) (s_wr b) && csub (s_stale b) (s_stale a)
+  && csub (s_held a) (s_held b) && csub (s_held b) (s_held a).
+
 Definition sjoin (a : option sst) (b : sst) : option sst :=
   match a with
   | None => Some b
-  | Some x => Some {| s_cur := cinter (s_cur x) (s_cur b); s_wr := cinter (s_wr x) (s_wr b); s_stale := nunion (s_stale x) (s_stale b); s_held := cinter (s_held x) (s_held b) |}
+  | Some x => Some {| s_must := cinter (s_must x) (s_must b); s_may := nunion (s_may x) (s_may b); s_wr := cinter (s_wr x) (s_wr b);
+                      s_stale := nunion (s_stale x) (s_stale b); s_held := s_held x |}
   end.
 Fixpoint set_join (A : list (option sst)) (n : nat) (s : sst) : list (option sst) :=
   match A, n with
@@ -50,25 +56,55 @@ Fixpoint set_join (A : list (option sst)) (n : nat) (s : sst) : list (option sst
   | x :: r, O => sjoin x s :: r
   | x :: r, S n' => x :: set_join r n' s
   end.
+(* along an edge back to an earlier block (a loop starting its next round) what was read in earlier rounds is forgotten:
+   every round of a receive / accept loop is an event of its own *)
+Definition along (i n : nat) (s : sst) : sst :=
+  if Nat.leb n i then {| s_must := s_must s; s_may := s_may s; s_wr := s_wr s; s_stale := []; s_held := s_held s |} else s.
 Definition sp_prop (f : rfunc) (A : list (option sst)) (i : nat) : list (option sst) :=
   match nth_error A i, nth_error (rblocks f) i with
-  | Some (Some s), Some b => fold_left (fun A' n => set_join A' n (fst (sp_body s (rbody b)))) (rsuccs b) A
+  | Some (Some s), Some b => fold_left (fun A' n => set_join A' n (along i n (fst (sp_body s (rbody b))))) (rsuccs b) A
   | _, _ => A
   end.
 Definition sp_sweep (f : rfunc) (A : list (option sst)) : list (option sst) := fold_left (sp_prop f) (seq 0 (length (rblocks f))) A.
 Definition sp_compute (f : rfunc) (entry : cset) : list (option sst) :=
   riter (2 * length (rblocks f) + 4) (sp_sweep f) (match rblocks f with [] => [] | _ :: r => Some (s0 entry) :: map (fun _ => None) r end).
+
+(* certificate: the assignment is a post-fixpoint (in particular the held sets agree along every edge) *)
+Definition sp_block_ok (f : rfunc) (A : list (option sst)) (i : nat) : bool :=
+  match nth_error A i, nth_error (rblocks f) i with
+  | Some (Some s), Some b =>
+    let o := fst (sp_body s (rbody b)) in
+    forallb (fun n => match nth_error A n with Some (Some t) => sst_le (along i n o) t | _ => false end) (rsuccs b)
+  | Some None, Some _ => true
+  | _, _ => false
+  end.
+Definition sp_cert_ok (f : rfunc) (entry : cset) (A : list (option sst)) : bool :=
+  Nat.eqb (length A) (length (rblocks f)) &&
+  match nth_error A 0 with Some (Some s) => sst_le (s0 entry) s | _ => is_nil (rblocks f) end &&
+  forallb (sp_block_ok f A) (seq 0 (length (rblocks f))).
+
+Definition sp_block_viol (f : rfunc) (A : list (option sst)) (i : nat) : list N :=
+  match nth_error A i, nth_error (rblocks f) i with
+  | Some (Some s), Some b => snd (sp_body s (rbody b))
+  | _, _ => [] end.
 Definition sp_violations (f : rfunc) (entry : cset) : list N :=
   let A := sp_compute f entry in
-  flat_map (fun i => match nth_error A i, nth_error (rblocks f) i with
-                     | Some (Some s), Some b => snd (sp_body s (rbody b))
-                     | _, _ => [] end) (seq 0 (length (rblocks f))).
+  flat_map (sp_block_viol f A) (seq 0 (length (rblocks f))).
+(* the function passes: the certificate checks and no block writes on a stale reading *)
+Definition sp_func_ok (f : rfunc) (entry : cset) : bool :=
+  let A := sp_compute f entry in sp_cert_ok f entry A && is_nil (sp_violations f entry).
 
-(* whole program: (function number, fields written on a stale reading), restricted to the fields [keep] selects *)
+(* whole program: (function number, fields written on a stale reading -- or [none; the certificate failed]) restricted to [keep] *)
 Definition sp_program (top : cset) (prog : list rfunc) (E : entries) (keep : N -> bool) : list (N * list N) :=
   flat_map (fun x => let '(i, f) := x in
       if rctor f then [] else
-      match filter keep (sp_violations f (entry_of top E (N.of_nat i))) with
+      let e := entry_of top E (N.of_nat i) in
+      if negb (sp_cert_ok f e (sp_compute f e)) then [(N.of_nat i, [])] else
+      match filter keep (sp_violations f e) with
       | [] => []
       | vs => [(N.of_nat i, vs)]
       end) (combine (seq 0 (length prog)) prog).
+
+(* every function of the program that is not a constructor passes *)
+Definition sp_all_ok (top : cset) (prog : list rfunc) (E : entries) : bool :=
+  forallb (fun x => let '(i, f) := x in rctor f || sp_func_ok f (entry_of top E (N.of_nat i))) (combine (seq 0 (length prog)) prog).
